@@ -78,13 +78,19 @@ func (u *Unit) pkgScope(env *Env, name string) *types.Package {
 		return home
 	}
 	if home != nil {
+		if home.Name() == name {
+			return home
+		}
+		// prefer packages of the module under verification over third-party packages of the same name
+		for _, imp := range home.Imports() {
+			if imp.Name() == name && strings.HasPrefix(imp.Path(), u.W.Module) {
+				return imp
+			}
+		}
 		for _, imp := range home.Imports() {
 			if imp.Name() == name {
 				return imp
 			}
-		}
-		if home.Name() == name {
-			return home
 		}
 	}
 	for _, p := range u.W.Pkgs {
@@ -459,6 +465,13 @@ func (u *Unit) evalField(e *SExpr, env *Env) Val {
 		}
 	}
 	x := u.eval(e.Args[0], env)
+	// wildcard ghost field (abstract state of an object behind an interface, e.g. the map a KV
+	// store denotes): keyed by the interface value; concrete pointers are boxed first so that the
+	// same object has the same abstract state through every interface type
+	if g, ok := u.W.Ghosts["*."+e.Name]; ok {
+		h, key := u.wildGhost(env.st, g, x)
+		return Val{T: sel(h, key)}
+	}
 	// ghost field?
 	if x.Typ != nil {
 		if tn, ok := namedOf(x.Typ); ok {
@@ -487,7 +500,16 @@ func (u *Unit) evalField(e *SExpr, env *Env) Val {
 			return Val{T: u.structGet(pv.T, sst, key, idx), Typ: ft}
 		}
 		h := u.heap(env.st, u.fieldHeapName(key, sst, idx), arraySort("Int", u.sortOf(ft)))
-		return Val{T: sel(h, x.T), Typ: ft}
+		v := sel(h, x.T)
+		if len(env.bound) == 0 {
+			// heap typing invariant for the value read (references point to allocated objects,
+			// integers are in range): the same assumption the executor makes at every load
+			switch ft.Underlying().(type) {
+			case *types.Slice, *types.Pointer, *types.Map:
+				u.assume(tTrue, u.typeInv(env.st, v, ft))
+			}
+		}
+		return Val{T: v, Typ: ft}
 	}
 	if sst, key, ok := u.transparentStruct(t); ok {
 		idx, ft := findField(sst, e.Name)
@@ -575,6 +597,12 @@ func (u *Unit) evalCall(e *SExpr, env *Env) Val {
 		return Val{T: u.termOf(x)}
 	case "ret", "ret0", "ret1", "ret2":
 		return u.evalRet(e, env)
+	case "store":
+		a, k, v := u.eval(e.Args[0], env), u.eval(e.Args[1], env), u.eval(e.Args[2], env)
+		if !strings.HasPrefix(a.T.Sort, "(Array ") {
+			u.specFail("store() needs an array")
+		}
+		return Val{T: sto(a.T, u.termOf(k), u.termOf(v))}
 	case "cast", "istype":
 		// cast(x, pkg.T) / istype(x, pkg.T): the interface value x holds a *pkg.T
 		x := u.eval(e.Args[0], env)
